@@ -865,7 +865,7 @@ void TasgridWrapper::writeMatrix(std::string const &filename, int rows, int cols
         ofs << std::scientific;
         for(int i=0; i<rows; i++){
             double const * r = matrix.getStrip(i);
-            ofs << setw(25) << r[0];
+            if (cols_t > 0) ofs << setw(25) << r[0];
             for(size_t j=1; j<cols_t; j++){
                 ofs << " " << setw(25) << r[j];
             }
@@ -887,10 +887,12 @@ void TasgridWrapper::printMatrix(int rows, int cols, const double mat[], bool is
     cout.precision(17);
     cout << std::scientific;
     size_t cols_t = (size_t) cols;
-    Utils::Wrapper2D<const double> matrix(cols, mat);
+    Utils::Wrapper2D<const double> matrix((isComplex) ? 2 * cols : cols, mat); // complex entries are (re, im) pairs
     for(int i=0; i<rows; i++){
         double const * r = matrix.getStrip(i);
-        if (isComplex){
+        if (cols_t == 0){
+            // nothing to print in this row
+        }else if (isComplex){
             cout << setw(50) << std::complex<double>(r[0], r[1]);
             for(size_t j=1; j<cols_t; j++)
                 cout << setw(50) << std::complex<double>(r[2*j], r[2*j + 1]);
